@@ -598,7 +598,10 @@ read_dns_withq(int dns_fd, int tun_fd, char *buf, int buflen, struct query *q)
 			int thispartlen, dataspace, datanew;
 
 			while (1) {
-				thispartlen = strlen(buf);
+				/* buf holds buftotal valid bytes and need not contain a
+				   \0 at all (the reply may have been decoded as another
+				   record type than the one its answer record names) */
+				thispartlen = strnlen(buf, buftotal);
 				thispartlen = MIN(thispartlen, buftotal-bufoffset);
 				dataspace = sizeof(data) - dataoffset;
 				if (thispartlen <= 0 || dataspace <= 0)
